@@ -48,6 +48,23 @@ Theorem C07_ref_coercion_sound_partial : forall U, table U -> forall a t tn T Tn
 Proof. exact ref_coercion_sound_lemma. Qed.
 Print Assumptions C07_ref_coercion_sound_partial.
 
+(* An accepted reference never differs from the parameter in an array depth -
+   the outer one or the one of a typed map's values (map<int[]> takes neither
+   map<int> nor map<int[][]>, map<S> not map<S[]>) - and never trades an array
+   for a typed map; [adim] / [mdim] are the ArrayDim / MapDim of the type trees.
+   Stated away from the untyped map ([no_umap]: `map[]` does take `map<int>[]`)
+   and without the struct->typed-map coercion. *)
+Theorem C07_accepted_ref_same_dims : forall a t tn T Tn,
+  valid_ref false a t (Some tn) = true -> ty_of a t = Some T -> ty_of a tn = Some Tn ->
+  no_umap T = true -> adim T = adim Tn /\ mdim T = mdim Tn.
+Proof. exact accepted_ref_same_dims_lemma. Qed.
+Print Assumptions C07_accepted_ref_same_dims.
+
+Theorem C07_assignable_same_dims : forall T O,
+  no_umap T = true -> assignable_g false T O = true -> adim T = adim O /\ mdim T = mdim O.
+Proof. exact assignable_same_dims_lemma. Qed.
+Print Assumptions C07_assignable_same_dims.
+
 (* ------------------------------------------------------------ rejection, per call *)
 
 (* In every context, for every call: a binding (before any wildcard) that
@@ -261,6 +278,19 @@ Proof.
   split; [left; reflexivity|]. cbn [c_dec_id c_bindings].
   split; [vm_compute; reflexivity|]. split; [reflexivity|]. split; vm_compute; reflexivity.
 Qed.
+
+(* typed maps whose values differ only in array depth: map<int[]> accepts a
+   map<int[]> reference, not map<int> nor map<int[][]>, nor int[] *)
+Example C07_same_dims_nonvacuous :
+  let mp k := mk_tid (bs "int") 0 k in
+  valid_ref false ex_ast (mp 2%N) (Some (mp 2%N)) = true /\
+  ty_of ex_ast (mp 2%N) = Some (TMap (TArr (TB KInt) 0)) /\ no_umap (TMap (TArr (TB KInt) 0)) = true /\
+  mdim (TMap (TArr (TB KInt) 0)) = 2 /\
+  valid_ref false ex_ast (mp 2%N) (Some (mp 1%N)) = false /\
+  valid_ref false ex_ast (mp 2%N) (Some (mp 3%N)) = false /\
+  valid_ref true ex_ast (mp 1%N) (Some (mp 2%N)) = false /\
+  valid_ref false ex_ast (mp 2%N) (Some (mk_tid (bs "int") 1 0)) = false.
+Proof. vm_compute. repeat split; reflexivity. Qed.
 
 (* inconsistent split sources *)
 Example C07_split_nonvacuous :
